@@ -117,6 +117,8 @@ class Node:
         """
         if isinstance(value, bool):
             value_str = 'true' if value else 'false'
+        elif isinstance(value, float):
+            value_str = _yaml_representer.represent_float(value).value
         else:
             value_str = str(value)
         start_mark = self.yaml_node.start_mark
@@ -264,8 +266,10 @@ class Node:
             value_node = yaml.ScalarNode('tag:yaml.org,2002:int', str(value),
                                          start_mark, end_mark)
         elif isinstance(value, float):
-            value_node = yaml.ScalarNode('tag:yaml.org,2002:float', str(value),
-                                         start_mark, end_mark)
+            value_node = yaml.ScalarNode(
+                    'tag:yaml.org,2002:float',
+                    _yaml_representer.represent_float(value).value,
+                    start_mark, end_mark)
         elif value is None:
             value_node = yaml.ScalarNode('tag:yaml.org,2002:null', '',
                                          start_mark, end_mark)
